@@ -20,7 +20,7 @@ pub fn meta() -> CheckMeta {
 }
 
 pub fn n_runs(tier: &str) -> u64 {
-    if tier == "quick" { 480 } else { 12_000 }
+    if tier == "quick" { 4_000 } else { 80_000 }
 }
 
 pub fn gen(tier: &str, seed: u64, idx: u64, base: u64) -> Spec {
